@@ -1031,6 +1031,8 @@ C13OK(e) ==
                LET v == e.vars[n] IN
                \* exact in BigInt up to 2^52 (products of differences stay exact in float64 for small shapes);
                \* beyond, the answer must still be right for points off the polygon's 2-unit band
+               \* (polygons contained in one horizontal line are outside the property, as in C14)
+               OneHorizontal(e.subj[1]) \/
                IF v.kind = "t" THEN v.n = PipExpectedB(BigPt(v, e.pt), BigPath(v, e.subj[1]))
                ELSE FarClosedPath(e.pt, e.subj[1], Band4) => v.n = PipExpectedB(BigPt(v, e.pt), BigPath(v, e.subj[1]))
        [] e.op = "area" ->
